@@ -101,6 +101,11 @@ func IdentContexts() []Ctx {
 		c("const-name", "package p\n\nconst § = 1\n"),
 		c("define-lhs", fn("§ := 1")),
 		c("range-key", fn("for § := range v {\n\t}")),
+		c("range-value", fn("for _, § := range v {\n\t}")),
+		c("range-key-assigned", fn("for § = range v {\n\t}")),
+		c("define-lhs-2nd", fn("a, § := 1, 2\n\t_ = a")),
+		c("define-in-if", fn("if § := 1; true {\n\t}")),
+		c("select-recv-define", fn("select {\n\tcase § := <-ch:\n\t}")),
 		c("label-decl", fn("§:\n\tfor {\n\t\tbreak §\n\t}")),
 		c("package-name", "package §\n"),
 		c("import-name", "package p\n\nimport § \"x/y\"\n"),
